@@ -197,6 +197,7 @@ pub struct ReplayFile {
 }
 
 pub struct SectionReport {
+    pub wall_s: f64,
     pub name: String,
     pub cov: Cov,
     pub rule: String,
@@ -394,6 +395,7 @@ impl Ctx {
                 println!("replay: property={} section={} passed", self.id, name);
             }
             self.sections.push(SectionReport {
+                wall_s: 0.0,
                 name: name.into(),
                 cov,
                 rule: rule.into(),
@@ -402,6 +404,7 @@ impl Ctx {
         }
 
         let mut total = Cov::new();
+        let sec_start = Instant::now();
 
         // ---- committed regression inputs for this section ----
         let rdir = self.verif_dir.join("regress").join(&self.id);
@@ -479,7 +482,11 @@ impl Ctx {
         if let Some((case, fail)) = first_fail {
             self.report_failure(name, &case, &fail);
         }
+        if std::env::var("VERIF_VERBOSE").is_ok() {
+            eprintln!("[section {name}] {} evaluations in {:.1}s", total.evaluations, sec_start.elapsed().as_secs_f64());
+        }
         self.sections.push(SectionReport {
+            wall_s: sec_start.elapsed().as_secs_f64(),
             name: name.into(),
             cov: total,
             rule: rule.into(),
@@ -515,6 +522,7 @@ impl Ctx {
                 s.name.clone(),
                 json!({
                     "rule": s.rule,
+                    "wall_s": s.wall_s,
                     "evaluations": s.cov.evaluations,
                     "distinct_nontrivial": s.cov.nontrivial.len(),
                     "classes": s.cov.classes,
